@@ -165,11 +165,13 @@ def run_grammar(ctx, G, rng, texts, only_parser=None):
             ctx.violation('Reconstructor-construction-fails:%s' % parser, {'grammar': G, 'parser': parser}, {'exc': repr(e)[:300]},
                           'F-C19-1' if has_template else None)
             continue
+        hist = []
         for w in texts:
             t = call(ctx, 'parse', p.parse, w, raw=True)
             if t[0] != 'ok' or not hasattr(t[1], 'iter_subtrees'):
                 continue
-            case = {'grammar': G, 'parser': parser, 'input': w}
+            case = {'grammar': G, 'parser': parser, 'input': w, 'earlier': list(hist)}      # what this Reconstructor did before
+            hist.append(w)
             ct = canon_tree(t[1])
             feats = set(gfeats) | {'parser:' + parser}
             nt = 'filtered-token-reinserted' in feats and bool(feats & {'inlined-rule-matched', 'expand1-rule-matched'})
@@ -201,6 +203,15 @@ def run_grammar(ctx, G, rng, texts, only_parser=None):
                 ctx.violation('reconstruct-raises:%s' % parser, case, {'exc': r[1], 'tree': ct}, fid)
                 continue
             s = r[1]
+            # the same tree through a fresh Reconstructor: the text must not depend on what this one reconstructed before
+            try:
+                s_fresh = Reconstructor(p).reconstruct(t[1])
+            except Exception as e:
+                s_fresh = 'EXC ' + type(e).__name__
+            ctx.count('fresh-reconstructor-comparisons')
+            if s_fresh != s:
+                ctx.violation('reconstruction-depends-on-earlier-reconstructions:%s' % parser, case, {'shared_instance': s, 'fresh_instance': s_fresh})
+                continue
             t2 = call(ctx, 'parse', p.parse, s, raw=True)
             # F-C19-3: ?start was replaced by its only child, so the tree handed to reconstruct() is not a start tree
             fid3 = 'F-C19-3' if root_lost else None
@@ -239,6 +250,10 @@ def gen_grammar(rng, templates=False):
         if t['name'] == 'N':
             t['pat'] = ['x', '[0-9]+', '']
             t['ex'] = ['7', '42']
+        elif t['name'] == 'C' and rng.random() < 0.6:
+            # like a command-line flag: starts with punctuation, ends in letters - must not fuse with a following word
+            t['pat'] = ['x', '-[a-z]+', '']
+            t['ex'] = ['-l', '-ab']
     return G
 
 
@@ -249,11 +264,29 @@ TEMPLATE_G = {'rules': [gen.rule('start', [gen.alt([['c', 'lst', [['t', 'A']]], 
               'ignore': ['WS'], 'start': ['start'], 'alphabet': list('ab[],: ')}
 
 
+def _calc_with_calls():
+    L, r, a = gen.LIT, gen.rule, gen.alt
+    star = lambda it: ['q', it, '*', 0, 0]
+    return {'rules': [
+        r('start', [a([['q', ['r', 'stmt'], '+', 0, 0]])]),
+        r('stmt', [a([['r', 'expr'], L(';')]), a([['t', 'X'], L('('), ['r', 'expr'], star(['g', [a([L(','), ['r', 'expr']])]]), L(')'), L(';')], 'call'),
+                   a([L('['), ['r', 'expr'], star(['g', [a([L('|'), ['r', 'expr']])]]), L(']')], 'alts')]),
+        r('expr', [a([['r', 'expr'], L('+'), ['r', 'term']]), a([['r', 'term']])], mods='?'),
+        r('term', [a([['r', 'term'], L('*'), ['r', 'atom']]), a([['r', 'atom']])], mods='?'),
+        r('atom', [a([['t', 'N']]), a([['t', 'X']]), a([L('('), ['r', 'expr'], L(')')])], mods='?')],
+        'terms': [gen.term('N', ['x', '[0-9]+', ''], ex=['7', '42']), gen.term('X', ['x', '[a-z]+', ''], ex=['x', 'f']), gen.term('WS', ['x', ' +', ''], ex=[' '])],
+        'ignore': ['WS'], 'start': ['start'], 'alphabet': list('7xf+*(),;[]| ')}
+
+
 def run_batch(ctx):
     rng = ctx.rng
     from .c13 import RICH
     from .c08 import ws_variant
     run_grammar(ctx, TEMPLATE_G, rng, ['[a]', '[a, a] [a:b]', '[a,a,a][a:b,a:b]'])
+    if ctx.batch == 0:
+        # operator chains of ?-rules next to rules with same-shaped alternatives and other literals, reconstructed in sequence
+        run_grammar(ctx, _calc_with_calls(), rng, ['x*x+7;', 'f(x,x,7);', 'x*x+7; f(x,x,7);', '[x|x|7] x+x*x; f(7);', 'f(x+7,x*x); [x*x|7+7];', 'f(x,x,x,x);', '[7|7|7];'])
+        ctx.count('calc-corpus')
     for i in range(PER_BATCH[ctx.tier]):
         if not ctx.time_left():
             ctx.count('stopped-on-time-budget')
@@ -272,4 +305,4 @@ def run_batch(ctx):
 
 def replay(ctx, case):
     G = case['grammar']
-    run_grammar(ctx, G, ctx.rng, [case['input']] if 'input' in case else sentences(ctx.rng, G, 8), only_parser=case.get('parser'))
+    run_grammar(ctx, G, ctx.rng, (case.get('earlier', []) + [case['input']]) if 'input' in case else sentences(ctx.rng, G, 8), only_parser=case.get('parser'))
